@@ -64,7 +64,7 @@ struct Runner
 	std::vector<Failure> failures;
 	std::vector<std::string> samples;
 
-	Runner() : fn(0), batch(3000), timeoutMs(20000), single(false), executed(0), nontrivial(0) {}
+	Runner() : fn(0), batch(3000), timeoutMs(120000), single(false), executed(0), nontrivial(0) {}
 
 	static void onAlarm(int)
 	{
